@@ -57,3 +57,34 @@ theorem removeChild_effect' (s s' : St) (p c c' : Nat) (hi : Inv s) (h : step s 
   rw [hid] at this; exact this
 
 end XmlRs.C13
+
+namespace XmlRs.C13
+open XmlRs XmlRs.Dom List
+
+/-- `normalize()`: it always succeeds on a node that exists; the element is afterwards its normalized form, which reads
+    exactly as before - same marks (identity, kind, data of every node that is not a Text node, attributes included) and
+    same characters in the same places; only the cutting of character data into Text nodes changed -/
+theorem normalize_effect (s : St) (e : Nat) (en : Node) (hi : Inv s) (hf : s.find e = some en) :
+    (step s (.normalize e)).2 = .ok ∧
+    (step s (.normalize e)).1.find e = some (normNode en).1 ∧ tokens (normNode en).1 = tokens en := by
+  have hstep : step s (.normalize e) = ({ (s.update e fun n => (normNode n).1) with
+      detached := (s.update e fun n => (normNode n).1).detached ++ (normNode en).2 }, .ok) := by
+    simp only [step, hf]
+  rw [hstep]
+  refine ⟨rfl, ?_, normNode_tokens en⟩
+  have hk : KeepsId (fun n => (normNode n).1) := by
+    intro n; cases n with
+    | mk j k d as ks => cases k <;> rfl
+  have h1 := find_update s e (fun n => (normNode n).1) hk en hi.1 hf
+  unfold St.find at h1 ⊢
+  show findInL e ((s.update e fun n => (normNode n).1).doc :: ((s.update e fun n => (normNode n).1).detached ++ (normNode en).2)) = _
+  have : (s.update e fun n => (normNode n).1).doc :: ((s.update e fun n => (normNode n).1).detached ++ (normNode en).2)
+       = (s.update e fun n => (normNode n).1).roots ++ (normNode en).2 := by simp [St.roots]
+  rw [this]
+  exact findInL_append_left e _ _ _ h1
+
+/-- … and no node is lost or duplicated by it: every node is afterwards in the normalized tree or a detached root -/
+theorem normalize_preserves_nodes (s : St) (e : Nat) (hi : Inv s) : SameIds s (step s (.normalize e)).1 :=
+  normalize_sameIds s e hi
+
+end XmlRs.C13
